@@ -647,12 +647,14 @@ theorem wfr_setCompPhases {s : Sys π ν} (hw : WFr s) (x : String) (pc : PConfA
       · exact hw
       · split
         · exact hw
-        · have hx : x ∈ dkeys s.nodes := dget_some_key hc
-          have hk : x ∈ dkeys s.phaseConf := (hw.pconf_keys x).mpr ((names_eq_nodes_keys hw x).mp hx)
-          refine wfr_congr hw rfl rfl rfl rfl rfl (fun _ => Iff.rfl) ?_
-          intro y
-          show y ∈ dkeys (dset s.phaseConf x _) ↔ _
-          rw [dkeys_dset_of_mem hk]
+        · split
+          · exact hw
+          · have hx : x ∈ dkeys s.nodes := dget_some_key hc
+            have hk : x ∈ dkeys s.phaseConf := (hw.pconf_keys x).mpr ((names_eq_nodes_keys hw x).mp hx)
+            refine wfr_congr hw rfl rfl rfl rfl rfl (fun _ => Iff.rfl) ?_
+            intro y
+            show y ∈ dkeys (dset s.phaseConf x _) ↔ _
+            rw [dkeys_dset_of_mem hk]
 
 end
 end SysLoss
